@@ -106,9 +106,12 @@ class SastRegexTransformerPipeline(RegexTransformerPipeline):
 
                 changes.append(
                     Change(
-                        lineNumber=lineno + 1,
+                        lineNumber=one_idx_lineno,
                         description=self.change_description,
-                        findings=file_context.get_findings_for_location(lineno),
+                        # finding locations are 1-based, like `lineNumber`
+                        findings=file_context.get_findings_for_location(
+                            one_idx_lineno
+                        ),
                     )
                 )
 
